@@ -330,10 +330,13 @@ class Interp:
                     if arm.get("guard") is not None and not self._bool(self.ev(arm["guard"], env2, depth)):
                         continue
                     env.update({kk: vv for kk, vv in env2.items() if kk in env})  # assignments to outer locals persist
-                    r = self.ev(arm["body"], env2, depth)
-                    for kk in env:
-                        if kk in env2:
-                            env[kk] = env2[kk]
+                    try:
+                        r = self.ev(arm["body"], env2, depth)
+                    finally:
+                        # also when the arm leaves through continue / break / return
+                        for kk in env:
+                            if kk in env2:
+                                env[kk] = env2[kk]
                     return r
             raise Unsupported("no match arm applies")
         if k == "assign":
